@@ -487,6 +487,97 @@ pub static OPS: &[OpDef] = &[
         o.f64(Geodesic.length(&l));
         o.f64(Haversine.length(&l));
     }),
+    // ---- coordinate-wise transforms and traversals over every member (sequential maps today)
+    op!("transforms", POLY_FAMS, false, false, |i, o| {
+        use geo::algorithm::orient::Direction;
+        let a = &i.a;
+        w_mpoly(o, &a.rotate_around_centroid(33.0));
+        w_mpoly(o, &a.rotate_around_center(-12.5));
+        w_mpoly(o, &a.rotate_around_point(90.0, Point::new(1.0, 2.0)));
+        w_mpoly(o, &a.scale(1.5));
+        w_mpoly(o, &a.scale_xy(0.5, 2.0));
+        w_mpoly(o, &a.skew_xy(10.0, -5.0));
+        w_mpoly(o, &a.translate(0.125, -7.0));
+        w_mpoly(o, &a.affine_transform(&AffineTransform::new(1.0, 0.25, 3.0, -0.5, 2.0, 1.0)));
+        w_mpoly(o, &a.map_coords(|c| Coord { x: c.y * 2.0, y: c.x - 1.0 }));
+        w_mpoly(o, &a.orient(Direction::Default));
+        w_mpoly(o, &a.orient(Direction::Reversed));
+        w_mls(o, &i.mls.rotate_around_centroid(45.0));
+        w_mpt(o, &i.pts.scale(3.0));
+        let mut m = a.clone();
+        m.rotate_around_centroid_mut(7.0);
+        m.map_coords_in_place(|c| Coord { x: c.x + 0.5, y: c.y });
+        m.remove_repeated_points_mut();
+        w_mpoly(o, &m);
+        let f32s: MultiPolygon<f32> = a.map_coords(|c| Coord { x: c.x as f32, y: c.y as f32 });
+        let back: MultiPolygon<f64> = geo::algorithm::Convert::convert(&f32s);
+        w_mpoly(o, &back);
+        let gc = collection(i);
+        w_geom(o, &Geometry::GeometryCollection(gc.rotate_around_centroid(5.0)));
+        w_geom(o, &Geometry::GeometryCollection(gc.map_coords(|c| Coord { x: -c.x, y: c.y })));
+    }),
+    op!("traversals", ANY, false, false, |i, o| {
+        let gc = collection(i);
+        let cs: Vec<Coord<f64>> = gc.coords_iter().collect();
+        o.len(cs.len());
+        cs.iter().for_each(|c| w_c(o, c));
+        let ex: Vec<Coord<f64>> = i.a.exterior_coords_iter().collect();
+        ex.iter().for_each(|c| w_c(o, c));
+        let ls: Vec<Line<f64>> = i.a.lines_iter().collect();
+        o.len(ls.len());
+        ls.iter().take(4000).for_each(|l| w_line(o, l));
+        o.u64(gc.coords_count() as u64);
+        for p in i.a.0.iter().take(200) {
+            o.bool(p.exterior().is_convex());
+            o.bool(p.exterior().is_cw());
+            o.tag(match p.exterior().winding_order() {
+                None => 0,
+                Some(geo::algorithm::winding_order::WindingOrder::Clockwise) => 1,
+                Some(_) => 2,
+            });
+        }
+        // positions / predicates of many points against the members
+        for pt in i.pts.0.iter().take(300) {
+            w_dbg(o, &i.a.coordinate_position(&pt.0));
+            o.bool(i.a.contains(pt));
+            o.bool(pt.is_within(&i.a));
+            o.bool(i.mls.intersects(pt));
+        }
+        if let Some(l) = i.mls.0.first() {
+            for pt in i.pts.0.iter().take(50) {
+                match l.line_locate_point(pt) {
+                    Some(f) => o.f64(f),
+                    None => o.tag(0),
+                }
+            }
+        }
+        w_dbg(o, &gc.dimensions());
+        w_dbg(o, &i.a.boundary_dimensions());
+    }),
+    op!("sphere_measures", POINT_FAMS, false, false, |i, o| {
+        let ps: Vec<Point<f64>> = i.pts.0.iter().take(40).map(lonlat).collect();
+        for w in ps.windows(3) {
+            o.f64(geo::algorithm::line_measures::Bearing::bearing(&Haversine, w[0], w[1]));
+            o.f64(geo::algorithm::line_measures::Bearing::bearing(&Geodesic, w[0], w[1]));
+            o.f64(geo::algorithm::line_measures::Bearing::bearing(&Rhumb, w[0], w[1]));
+            o.f64(w[0].cross_track_distance(&w[1], &w[2]));
+            w_pt(o, &geo::algorithm::line_measures::InterpolatePoint::point_at_ratio_between(&Haversine, w[0], w[1], 0.3));
+            w_pt(o, &geo::algorithm::line_measures::Destination::destination(&Rhumb, w[0], 45.0, 10_000.0));
+            match w[0].vincenty_distance(&w[1]) {
+                Ok(d) => o.f64(d),
+                Err(_) => o.tag(0),
+            }
+        }
+        let l = LineString::new(ps.iter().map(|p| p.0).collect());
+        if l.0.len() >= 2 {
+            let d = geo::algorithm::line_measures::Densify::densify(&Haversine, &l, 50_000.0);
+            o.len(d.0.len());
+            d.0.iter().take(500).for_each(|c| w_c(o, c));
+            for p in ps.iter().take(10) {
+                w_closest(o, &l.haversine_closest_point(p));
+            }
+        }
+    }),
     // ---- the par-iter surface of geo-types (user-level ordered collects)
     op!("par_iter_multipolygon", POLY_FAMS, false, false, |i, o| {
         let areas: Vec<f64> = i.a.par_iter().map(|p| p.unsigned_area()).collect();
